@@ -191,8 +191,9 @@ def in_avoided_region(c, present):
     exact0 = c["kind"] == "diag" and c["start"] == "exact_eig"
     if g1 and m >= 2 and not exact0:
         return "grade1"                                     # lanczos_reltol_first_step
-    if len(set(min(gr, m) for gr in c["grades"])) > 1:
-        return "batch_unequal"                              # lanczos_batch_shared_stop
+    if len(set(min(gr, m) for gr in c["grades"])) > 1 or (c["batch"] > 1 and c["start"] == "few" and c.get("style") == "clustered"):
+        return "batch_unequal"                              # lanczos_batch_shared_stop (clustered: the step at which an element
+                                                            # falls below tol*beta_1 is not predictable from the construction)
     if c["tol"] < 1e-9 and min(c["grades"]) < m and not exact0:
         return "tol_below_noise"                            # the caller asked to iterate through rounding noise
     return None
